@@ -22,18 +22,25 @@ from .c16 import confined_to_raise
 R1_MODULES = ("einx._src.namedtensor.stage2", "einx._src.namedtensor.stage3", "einx._src.namedtensor.solve", "einx._src.adapter", "einx._src.frontend.util")
 STRING_METHODS = {"startswith", "endswith", "split", "rsplit", "partition", "lower", "upper", "strip", "replace", "find", "index", "isdigit", "isalpha", "zfill", "encode", "removeprefix", "removesuffix", "casefold", "title", "count", "join"}
 
-# (function qualname suffix, construct) -> reason
+# (module suffix, construct, first literal argument or None) -> reason.  Keyed by what is done, not by the name of the
+# function that does it, so that moving the statement into a helper of the same module changes nothing
 R1_TABLE = {
-    ("stage3.tree::Axis.__init__", "startswith"): "`unnamed.` prefix test only selects how the axis is printed (__str__); the prefix cannot occur in a user name (C08.R2)",
-    ("frontend.util::_exprs_to_axes", "split"): "separates the user's own name from the `.<index>` suffixes einx appended for ellipsis repetitions, to report sizes per user name",
-    ("stage2.solve::solve", "sorted"): "sorted list of contradicting axis names is only used in the RankError message",
+    ("namedtensor.stage3.tree", "startswith", "unnamed."): "`unnamed.` prefix test only selects how the axis is printed (__str__); the prefix cannot occur in a user name (C08.R2)",
+    ("frontend.util", "split", "."): "separates the user's own name from the `.<index>` suffixes einx appended for ellipsis repetitions, to report sizes per user name",
+    ("namedtensor.stage2.solve", "sorted", None): "sorted list of contradicting axis names is only used in the RankError message",
 }
 
 
-def _table(f, construct):
-    q = f.qualname if f else ""
-    for (suffix, c), reason in R1_TABLE.items():
-        if q.endswith(suffix) and c == construct:
+def _table(f, construct, node=None):
+    m = f.module.name if f else ""
+    lit = None
+    # the string method call this attribute belongs to, and its first literal argument
+    call = getattr(getattr(node, "_parent", None), "_parent", None) if node is not None else None
+    for cand in (getattr(node, "_parent", None), call):
+        if isinstance(cand, ast.Call) and cand.args and isinstance(cand.args[0], ast.Constant):
+            lit = cand.args[0].value
+    for (suffix, c, l), reason in R1_TABLE.items():
+        if m.endswith(suffix) and c == construct and (l is None or l == lit):
             return reason
     return None
 
@@ -100,7 +107,7 @@ def r1(p, rep):
             if confined_to_raise(node, f.node) if f else False:
                 rep.ok("C08.R1", key, site, f"{bad}, but only inside a raise (message text)")
                 continue
-            reason = _table(f, construct)
+            reason = _table(f, construct, node)
             if reason:
                 rep.exempt("C08.R1", key, site, reason)
             else:
